@@ -215,6 +215,9 @@ InvNames(w) ==
   \cup R(~Inv_C05(w), "Inv_C05") \cup R(~Inv_C06(w), "Inv_C06") \cup R(~Inv_C07(w), "Inv_C07") \cup R(~Inv_C11(w), "Inv_C11")
   \cup R(~NonNeg(w), "NonNeg")
 
+PropOfInv(n) == CASE n \in {"Inv_C01", "Inv_C01b"} -> {"C01"} [] n \in {"Inv_C02", "NonNeg"} -> {"C02"} [] n = "Inv_C03" -> {"C03"}
+                  [] n = "Inv_C05" -> {"C05"} [] n = "Inv_C06" -> {"C06"} [] n = "Inv_C07" -> {"C07"} [] n = "Inv_C11" -> {"C11"}
+
 \* ------------------------------------------------------------------ verdict of one line
 Findings(l) ==
   LET e == Rec[l]
@@ -231,7 +234,7 @@ Findings(l) ==
             props |-> IF a \in {"wire.canon", "wire.url", "msg.tf_create"} THEN {"C19"}
                       ELSE IF a = "c.stopped" THEN {"C10"}
                       ELSE IF a = "c.cfg" THEN {"C14", "C19"} ELSE {"C14"}] : a \in atoms}
-          \cup {[l |-> l, kind |-> "inv", m |-> "instantiate", atom |-> n, props |-> InvProps(o)] : n \in InvNames(o)}
+          \cup {[l |-> l, kind |-> "inv", m |-> "instantiate", atom |-> n, props |-> PropOfInv(n)] : n \in InvNames(o)}
   ELSE
   LET pre == W[e.parent]
       r == Exec(pre, call)
@@ -248,7 +251,7 @@ Findings(l) ==
         THEN {[l |-> l, kind |-> "unexpected_failure", m |-> m, atom |-> e.res.err, props |-> SuccessProps(pre, call)]}
         ELSE \* both refuse: a refused transaction changes nothing
              {[l |-> l, kind |-> "diff", m |-> m, atom |-> a, props |-> {"C08"} \cup AtomProps(a, m)] : a \in StateAtoms(pre, o) \ {"now"}}
-      inv == {[l |-> l, kind |-> "inv", m |-> m, atom |-> n, props |-> InvProps(o)] : n \in InvNames(o)}
+      inv == {[l |-> l, kind |-> "inv", m |-> m, atom |-> n, props |-> PropOfInv(n)] : n \in InvNames(o)}
       \* C15: the State query reports the purchase rate LST / staked of the stored totals
       qrate == {[l |-> l, kind |-> "inv", m |-> m, atom |-> "State.rate", props |-> {"C15"}] :
                   x \in R(~e.post.c.stateErr /\ (o.c.L = 0 \/ o.c.N > 0) /\ e.post.c.rate # Rates(o.c.N, o.c.L)[2], 1)}
